@@ -47,7 +47,14 @@ class Header(_Header):
         self.critical = False
 
     def parse(self, packet):
-        self.length = packet
+        if 192 <= packet[0] < 255:
+            # RFC 4880 5.2.3.1: subpacket lengths have no partial-length form; every first octet
+            # from 192 to 254 starts a two-octet length
+            self.length = ((packet[0] - 192) << 8) + packet[1] + 192
+            del packet[:2]
+
+        else:
+            self.length = packet
 
         self.typeid = packet[:1]
         del packet[:1]
